@@ -2,7 +2,7 @@
 import ast
 
 from ..model import AnalysisError, dotted, unparse
-from ..util import U, enum_paths, walk_no_nested, is_yield_call, is_socket_recv
+from ..util import FACTS, FACTS_I, U, enum_paths, walk_no_nested, is_yield_call, is_socket_recv
 from ..paths import call_attr, call_name
 from . import c11, c13, c14, c20
 
@@ -51,7 +51,7 @@ def r2(ctx):
   n = 0
   for ev, ex in enum_paths(ctx, f):
     sp = [(i, e.node) for i, e in enumerate(ev) if e.kind == 'call' and call_name(e.node) == 'gevent.spawn' and e.node.args and U(e.node.args[0]).endswith('_AsyncProcessTransaction')]
-    fs = [(U(e.node).replace(' ', ''), e.info) for e in ev if e.kind == 'cond']
+    fs = FACTS(ev)
     busy = ('self._processingisnotNone', True) in fs or ('self._processingisNone', False) in fs or ('self._processing', True) in fs
     idle = ('self._processingisnotNone', False) in fs or ('self._processingisNone', True) in fs or ('self._processing', False) in fs
     if busy:
@@ -82,7 +82,7 @@ def ensures_closed(ctx):
   st = prog.func(TS, 'SocketTransportSink.state')
   ok = True
   for ev, ex in enum_paths(ctx, fl):
-    fs = [(U(e.node).replace(' ', ''), e.info) for e in ev if e.kind == 'cond']
+    fs = FACTS(ev)
     closes = [e for e in ev if e.kind == 'call' and U(e.node.func) == 'self.Close']
     if ('self.state==ChannelState.Closed', True) in fs:
       continue
@@ -92,7 +92,7 @@ def ensures_closed(ctx):
   # state property: Open whenever the socket reports open
   oks = False
   for ev, ex in enum_paths(ctx, st):
-    fs = [(U(e.node).replace(' ', ''), e.info) for e in ev if e.kind == 'cond']
+    fs = FACTS(ev)
     r = [e for e in ev if e.kind == 'ret']
     if ('self._socket.isOpen()', True) in fs and r and U(r[-1].node.value).endswith('ChannelState.Open'):
       oks = True
@@ -149,7 +149,7 @@ def r4(ctx):
   for ev, ex in enum_paths(ctx, f):
     rel = [e.node for e in ev if e.kind == 'stmt' and isinstance(e.node, ast.Assign) and isinstance(e.node.value, ast.Call) and call_attr(e.node.value) in ('_ReleaseTag', 'pop')]
     ups = [e.node for e in ev if e.kind == 'call' and call_attr(e.node) in ('AsyncProcessResponseStream', 'AsyncProcessResponse')]
-    fs = [(U(e.node).replace(' ', ''), e.info) for e in ev if e.kind == 'cond']
+    fs = FACTS(ev)
     if not rel:
       ctx.ob('C02.R4', f, 'reply looks its entry up by the tag', False, 'no lookup by tag on a path', why)
       continue
